@@ -28,12 +28,15 @@ type c19Case struct {
 	Refuse  int    `json:"refuse"`   // bit i set = handler i (in registration order) refuses
 	MsgType string `json:"msg_type"` // "0" or "V"
 	Inbound bool   `json:"inbound"`
-	Mutate  bool   `json:"mutate,omitempty"` // every outgoing handler re-stamps SendingTime before looking at the bytes
-	Late    bool   `json:"late,omitempty"`   // type-specific handlers are registered only after a first message of that type has passed
+	Mutate  bool   `json:"mutate,omitempty"`   // every outgoing handler re-stamps SendingTime before looking at the bytes
+	Late    bool   `json:"late,omitempty"`     // type-specific handlers are registered only after a first message of that type has passed
 	LateAll bool   `json:"late_all,omitempty"` // ... and so are the all-types handlers
-	Reset   bool   `json:"reset,omitempty"`  // the outgoing counter is reset through the counter store before the last send
-	Remove  int    `json:"remove,omitempty"` // k > 0: the application removes its k-th handler again, with the id registration gave it, before the sends
-	Resend  bool   `json:"resend,omitempty"` // after the sends the peer asks for everything again: the retransmissions pass the handlers too
+	Reset   bool   `json:"reset,omitempty"`    // the outgoing counter is reset through the counter store before the last send
+	Remove  int    `json:"remove,omitempty"`   // k > 0: the application removes its k-th handler again, with the id registration gave it, before the sends
+	Resend  bool   `json:"resend,omitempty"`   // after the sends the peer asks for everything again: the retransmissions pass the handlers too
+	// ResendRefuse (with Resend): 1 = an application handler refuses every retransmission, 2 = the store refuses to
+	// save them again; afterwards the application sends once more: "a refusal stops that message only"
+	ResendRefuse int `json:"resend_refuse,omitempty"`
 	// Final: after the sends the session itself sends a Logout ("logout" = Session.Logout, "stop" =
 	// Session.Stop).  FailAt 4 makes the store refuse exactly that message; RefuseFinal registers a handler
 	// for the Logout type that refuses it.  Either way it must not be transmitted.
@@ -54,11 +57,12 @@ type c19Case struct {
 // failingStore wraps the memory store and logs every Save.
 type failingStore struct {
 	*memory.Storage
-	log    *[]string
-	saves  int
-	failAt int
-	armed  bool
-	saved  map[int][]byte
+	log     *[]string
+	saves   int
+	failAt  int
+	armed   bool
+	saved   map[int][]byte
+	failAll bool // every Save is refused while set
 }
 
 var errSave = errors.New("injected save failure")
@@ -89,6 +93,9 @@ func (f *failingStore) Save(id fix.StorageID, msg simplefixgo.SendingMessage, se
 		if f.failAt != 0 && f.saves == f.failAt {
 			return errSave
 		}
+	}
+	if f.failAll {
+		return errSave
 	}
 	b, _ := msg.ToBytes()
 	f.saved[seq] = append([]byte{}, b...)
@@ -272,6 +279,10 @@ func c19Run(c c19Case) (string, string) {
 			}
 		}
 	}
+	refusing := false
+	if c.ResendRefuse == 1 {
+		w.h.HandleOutgoing(simplefixgo.AllMsgTypes, func(msg simplefixgo.SendingMessage) bool { return !refusing })
+	}
 	// a handler for another type must never run
 	other := "V"
 	if c.MsgType == "V" {
@@ -431,6 +442,28 @@ func c19Run(c c19Case) (string, string) {
 		// the peer asks for everything again: each retransmission passes the outgoing handlers like a
 		// first transmission, and what the last handler saw is what goes out
 		seen, seenSeq, log = seen[:0], seenSeq[:0], log[:0]
+		if c.ResendRefuse != 0 {
+			refusing = true
+			if c.ResendRefuse == 2 {
+				fs.failAll = true
+			}
+			w.in(w.msg("2", "7=1", "16=0"))
+			refusing, fs.failAll = false, false
+			if outs := w.take(); len(outs) != 0 {
+				return "resend:refused-message-transmitted", outsStr(outs)
+			}
+			// the refusals concerned those messages only: the next one goes out as usual
+			err := w.s.Send(mk())
+			vsched.Settle()
+			outs := w.take()
+			if err != nil {
+				return "send-after-refused-retransmission:error", err.Error()
+			}
+			if len(outs) != 1 || mtype(outs[0].Msg) != c.MsgType {
+				return "send-after-refused-retransmission:not-transmitted", outsStr(outs)
+			}
+			return "", ""
+		}
 		w.in(w.msg("2", "7=1", "16=0"))
 		outs := w.take()
 		if len(outs) == 0 {
@@ -592,6 +625,9 @@ func runC19(R *vlib.Out) {
 								return
 							}
 							if refuse == 0 {
+								if !try(c19Case{Role: role, Order: o, MsgType: mt, Resend: true, ResendRefuse: 1}) || !try(c19Case{Role: role, Order: o, MsgType: mt, Resend: true, ResendRefuse: 2}) {
+									return
+								}
 								if !try(c19Case{Role: role, Order: o, MsgType: mt, Resend: true}) || !try(c19Case{Role: role, Order: o, MsgType: mt, Resend: true, Mutate: true}) {
 									return
 								}
